@@ -1,0 +1,44 @@
+//go:build verif
+
+// Machine-checked contracts for package strategy/decorator (read by /verif/govc; comment-only).
+// The wrapped strategy is arbitrary (interface contract of strategy.Strategy): the closure obligations below hold for
+// every action word it may emit and every positive closing series (C07).
+
+package decorator
+
+//@ func InverseStrategy.Compute
+//@ requires consumed(snapshots) == 0
+//@ ensures[C05,C07] len(result) >= len(snapshots) && (len(snapshots) >= warmup(i.InnerStrategy) ==> len(result) == len(snapshots))
+//@ ensures[C05,C07] forall k :: 0 <= k && k < len(result) ==> 0 - 1 <= result[k] && result[k] <= 1
+//@ ensures[C05,C07] forall k :: 0 <= k && k < min(warmup(i.InnerStrategy), len(result)) ==> result[k] == 0
+//@ ensures[C03] consumed(snapshots) == len(snapshots) && closed(result)
+//@ ensures[C04] forall k :: 0 <= k && k < len(result) && k < len(snapshots) ==> hor(result, k) <= hor(snapshots, k)
+//@ lit#0 ensures[C07] "swaps-buy-and-sell" ret == 0 - action
+
+//@ func NoLossStrategy.Compute
+//@ requires consumed(snapshots) == 0 && (forall k :: 0 <= k && k < len(snapshots) ==> snapshots[k].Close > 0)
+//@ ensures[C05,C07] len(result) == len(snapshots)
+//@ ensures[C05,C07] forall k :: 0 <= k && k < len(result) ==> 0 - 1 <= result[k] && result[k] <= 1
+//@ ensures[C03] consumed(snapshots) == len(snapshots) && closed(result)
+//@ ensures[C04] forall k :: 0 <= k && k < len(result) ==> hor(result, k) <= hor(snapshots, k)
+//@ lit#0 invariant boughtAt >= 0
+//@ lit#0 ensures[C07] "range" 0 - 1 <= ret && ret <= 1
+//@ lit#0 ensures[C07] "buy-remembers-purchase-close" ret == 1 ==> old(boughtAt) == 0 && action == 1 && boughtAt == closing
+//@ lit#0 ensures[C07] "never-sells-at-or-below-purchase-close" ret == 0 - 1 ==> old(boughtAt) != 0 && closing > old(boughtAt) && action == 0 - 1 && boughtAt == 0
+//@ lit#0 ensures[C07] "hold-keeps-position" ret == 0 ==> boughtAt == old(boughtAt)
+//@ lit#0 ensures[C07] "passes-buy-when-in-cash" action == 1 && old(boughtAt) == 0 ==> ret == 1
+//@ lit#0 ensures[C07] "passes-profitable-sell" action == 0 - 1 && old(boughtAt) != 0 && closing > old(boughtAt) ==> ret == 0 - 1
+
+//@ func StopLossStrategy.Compute
+//@ requires consumed(snapshots) == 0 && 0 <= s.Percentage && s.Percentage < 1 && (forall k :: 0 <= k && k < len(snapshots) ==> snapshots[k].Close > 0)
+//@ ensures[C05,C07] len(result) == len(snapshots)
+//@ ensures[C05,C07] forall k :: 0 <= k && k < len(result) ==> 0 - 1 <= result[k] && result[k] <= 1
+//@ ensures[C03] consumed(snapshots) == len(snapshots) && closed(result)
+//@ ensures[C04] forall k :: 0 <= k && k < len(result) ==> hor(result, k) <= hor(snapshots, k)
+//@ lit#0 invariant stopLossAt >= 0
+//@ lit#0 ensures[C07] "range" 0 - 1 <= ret && ret <= 1
+//@ lit#0 ensures[C07] "buy-sets-stop-level" ret == 1 ==> old(stopLossAt) == 0 && action == 1 && stopLossAt == closing * (1 - s.Percentage) && stopLossAt > 0
+//@ lit#0 ensures[C07] "sells-at-first-close-at-or-below-stop" old(stopLossAt) != 0 && closing <= old(stopLossAt) ==> ret == 0 - 1
+//@ lit#0 ensures[C07] "passes-sell-when-invested" old(stopLossAt) != 0 && action == 0 - 1 ==> ret == 0 - 1
+//@ lit#0 ensures[C07] "sell-only-when-invested" ret == 0 - 1 ==> old(stopLossAt) != 0 && stopLossAt == 0 && (action == 0 - 1 || closing <= old(stopLossAt))
+//@ lit#0 ensures[C07] "hold-keeps-position" ret == 0 ==> stopLossAt == old(stopLossAt)
